@@ -963,8 +963,7 @@ class Context:
                 # The result should be a function expression wrapped in a program
                 # We need to extract the function from the bytecode
                 # Execute the expression to get the function object
-                vm = VM(self.memory_limit, self.time_limit)
-                vm.globals = self._globals
+                vm = self._nested_vm()
                 result = vm.run(bytecode_module)
 
                 if isinstance(result, JSFunction):
@@ -972,6 +971,8 @@ class Context:
                 else:
                     # Fallback: return a simple empty function
                     return JSFunction("anonymous", params, bytes(), {})
+            except (TimeLimitError, MemoryLimitError):
+                raise
             except Exception as e:
                 from .errors import JSError
 
@@ -1102,9 +1103,10 @@ class Context:
                 compiler = Compiler()
                 bytecode_module = compiler.compile(ast)
 
-                vm = VM(ctx.memory_limit, ctx.time_limit)
-                vm.globals = ctx._globals
+                vm = ctx._nested_vm()
                 return vm.run(bytecode_module)
+            except (TimeLimitError, MemoryLimitError):
+                raise
             except Exception as e:
                 from .errors import JSError
 
@@ -1235,16 +1237,26 @@ class Context:
 
         return self._to_python(result)
 
+    def _nested_vm(self) -> VM:
+        """Create a VM for code started from within a running evaluation.
+
+        It shares the globals and, if an evaluation is running, its deadline.
+        """
+        vm = VM(memory_limit=self.memory_limit, time_limit=self.time_limit)
+        vm.globals = self._globals
+        if self._current_vm is not None:
+            vm.start_time = self._current_vm.start_time
+        return vm
+
     def _call_function(self, func: JSFunction, args: list) -> Any:
         """Call a JavaScript function with the given arguments.
 
         This is used internally to invoke JSFunction objects from Python code.
         """
-        vm = VM(memory_limit=self.memory_limit, time_limit=self.time_limit)
-        vm.globals.update(self._globals)
-        result = vm._call_callback(func, args, UNDEFINED)
-        self._globals.update(vm.globals)
-        return result
+        vm = self._nested_vm()
+        if vm.start_time is None:
+            vm.start_time = time.monotonic()
+        return vm._call_callback(func, args, UNDEFINED)
 
     def get(self, name: str) -> Any:
         """Get a global variable.
